@@ -63,6 +63,9 @@ TESTS = [
     ("C20-from-scalar-sorted-layout", [(MI, "        for (k, parity), num_channels in layout:\n            length = num_channels * (self.D**k)", "        for (k, parity), num_channels in sorted(layout):\n            length = num_channels * (self.D**k)")], ["C20", "C13"], []),
     ("C07-unet-upsample-asymmetric-padding", [(MD, "                padding = ((1, 1),) * self.D\n                stride = (1,) * self.D", "                padding = ((2, 0),) * self.D\n                stride = (1,) * self.D")], ["C07"], ["C09"]),
     ("C07-dilresnet-dilation-one-axis", [(MD, "                        rhs_dilation=(dilation,) * D,", "                        rhs_dilation=(dilation,) + (1,) * (D - 1),")], ["C07"], []),
+    ("C13-checkpoint-saves-best-model", [(TR, "            save(save_model, model)\n", "            save(save_model, stop_condition.best_model)\n")], ["C13"], []),
+    ("C13-from-vector-float32", [(MI, "vector[idx : (idx + img.size)].reshape(img.shape))", "vector[idx : (idx + img.size)].reshape(img.shape).astype(jnp.float32))")], ["C13"], ["C12"]),
+    ("C17-mapped-batches-prepended", [(TR, "        out_maps.append(one_map)\n", "        out_maps.insert(0, one_map)\n")], ["C17"], []),
     ("C07-maxnormpool-no-norm-for-scalars-only-check", [(MD, "            down_layers = (ml.MaxNormPool(2, equivariant), [])", "            down_layers = (ml.MaxNormPool(2, False) if all(k == 0 for (k, _), _ in mid_keys) else ml.MaxNormPool(2, equivariant), [])")], ["C07"], []),
 ]
 
